@@ -14,6 +14,7 @@
 //     disc nefc_d a_d[nv] qfrc_inverse_d[nv] efc_force_inv_d[nefc_d] fwdinv0 fwdinv1
 //     D[nefc] R[nefc] floss[nefc] jar[nefc] type[nefc] id[nefc] ncon {dim mu fr[5] adr}[ncon]      (jar = J qacc - aref)
 //     tbias                                                                                      (max |mj_tendonBias|)
+//     nisland noninv enableflags disableflags sparse   (follow ds..anyd; noninv: the efc<->island permutation is not an involution)
 //     ds jnt_m2 jnt_single anyd         (damping-source stratum; joints with jnt_actuatorid == -2 / >= 0; any joint damping left)
 //   xfrc_q is computed here from mj_jac at the body centre of mass (not by mj_xfrcAccumulate).
 #include <stdio.h>
@@ -100,6 +101,23 @@ int main(int argc, char** argv) {
         }
       }
     }
+    // extra kinematic trees (seed % 4 < 2): two more root bodies, each with a limited hinge that carries friction loss and a sphere that
+    // touches the floor, so that several constraint islands exist whose rows (friction loss / limit / contact) interleave in efc order
+    // (the efc <-> island permutation is then not its own inverse)
+    int xtrees = (seed % 4 < 2) ? 2 : 0;
+    for (int k = 0; k < xtrees; k++) {
+      mjg_rng rx = {(uint64_t)seed * 0xA0761D6478BD642FULL + 31 * k + 3};
+      mjsBody* xb = mjs_addBody(mjs_findBody(spec, "world"), NULL);
+      char nm[24]; snprintf(nm, sizeof(nm), "c09_xb%d", k); mjs_setName(xb->element, nm);
+      xb->pos[0] = 2.0 + 0.6 * k; xb->pos[1] = mjg_range(&rx, -0.3, 0.3); xb->pos[2] = 0.3;
+      mjsJoint* xj = mjs_addJoint(xb, NULL); snprintf(nm, sizeof(nm), "c09_xj%d", k); mjs_setName(xj->element, nm);
+      xj->type = mjJNT_HINGE; xj->axis[0] = 0; xj->axis[1] = 1; xj->axis[2] = 0;
+      xj->limited = mjLIMITED_TRUE; xj->range[0] = 0.2; xj->range[1] = 0.9;      // qpos = 0 initially: the lower limit is active
+      xj->frictionloss = mjg_range(&rx, 0.05, 0.5);
+      mjsGeom* xg = mjs_addGeom(xb, NULL); snprintf(nm, sizeof(nm), "c09_xg%d", k); mjs_setName(xg->element, nm);
+      xg->type = mjGEOM_SPHERE; xg->size[0] = 0.1; xg->pos[0] = 0.25; xg->pos[2] = -0.21;       // bottom at z = -0.01: touches the floor
+      xg->condim = (k == 0) ? 3 : 4; xg->friction[0] = mjg_range(&rx, 0.3, 1.0); xg->density = 800;
+    }
     // "damping source" stratum: where the velocity-dependent terms that the Euler integrator treats implicitly come from.
     //   0 as generated (joint damping on many dofs)   1 none at all            2 joint damping on the LAST dof only
     //   3 polynomial joint damping only (one dof)     4 ONE damped actuator    5 TWO damped actuators on one joint (jnt_actuatorid = -2)
@@ -137,6 +155,23 @@ int main(int argc, char** argv) {
       if (ds == 2 && m->nv > 0) m->dof_damping[m->nv - 1] = 0.7;
       if (ds == 3 && m->nv > 0) m->dof_dampingpoly[mjNPOLY * (m->nv / 2)] = 0.4;
     }
+    // option stratum: combinations of flags under which forward and inverse must still agree
+    {
+      mjg_rng ro = {(uint64_t)seed * 0xE7037ED1A0B428DBULL + 13};
+      if (mjg_chance(&ro, 0.45)) m->opt.enableflags |= mjENBL_DIAGEXACT;
+      if (mjg_chance(&ro, 0.15)) m->opt.disableflags |= mjDSBL_ISLAND;
+      if (mjg_chance(&ro, 0.2)) m->opt.disableflags |= mjDSBL_WARMSTART;
+      if (mjg_chance(&ro, 0.15)) m->opt.disableflags |= mjDSBL_REFSAFE;
+      if (mjg_chance(&ro, 0.1)) m->opt.disableflags |= mjDSBL_GRAVITY;
+      if (mjg_chance(&ro, 0.1)) m->opt.disableflags |= mjDSBL_SPRING;
+      if (mjg_chance(&ro, 0.15)) {
+        m->opt.enableflags |= mjENBL_OVERRIDE; m->opt.o_margin = 0.005;
+        m->opt.o_solref[0] = 0.03; m->opt.o_solref[1] = 0.8;
+        m->opt.o_friction[0] = 0.7; m->opt.o_friction[1] = 0.7; m->opt.o_friction[2] = 0.01; m->opt.o_friction[3] = 0.001; m->opt.o_friction[4] = 0.001;
+      }
+    }
+    int jac_sparse = 0;
+    { mjg_rng rj = {(uint64_t)seed * 0x8EBC6AF09C88C6E3ULL + 1}; jac_sparse = mjg_chance(&rj, 0.3); }
     int jnt_m2 = 0, jnt_single = 0;
     for (int j = 0; j < m->njnt; j++) { jnt_m2 += m->jnt_actuatorid[j] == -2; jnt_single += m->jnt_actuatorid[j] >= 0; }
     mjg_rng r = {(uint64_t)seed * 2654435761ULL + 909};
@@ -169,6 +204,7 @@ int main(int argc, char** argv) {
         if (!(step == 0 || step == 5 || step == 20)) continue;
         // A: forward at tight tolerance from the current state (d itself is not modified)
         tight(m, solver);
+        m->opt.jacobian = jac_sparse ? mjJAC_SPARSE : mjJAC_DENSE;
         mj_copyData(w, m, d);
         mj_forward(m, w);
         int nefc = w->nefc;
@@ -246,6 +282,12 @@ int main(int argc, char** argv) {
           int anyd = 0;
           for (int i = 0; i < nv; i++) anyd |= (m->dof_damping[i] > 0) || !mju_isZero(m->dof_dampingpoly + mjNPOLY * i, mjNPOLY);
           printf(" %d %d %d %d", ds, jnt_m2, jnt_single, anyd);
+        }
+        // I: island structure of the forward solve and option flags
+        {
+          int noninv = 0;
+          if (w->nisland > 0) for (int i = 0; i < nefc; i++) { int k = w->map_efc2iefc[i]; if (k < 0 || k >= nefc || w->map_efc2iefc[k] != i) { noninv = 1; break; } }
+          printf(" %d %d %d %d %d", w->nisland, noninv, m->opt.enableflags, m->opt.disableflags, mj_isSparse(m));
         }
         printf("\n");
         done++;
